@@ -7,7 +7,7 @@ CONSTANTS
   VPerO = 1
   MaxZ = 3
   Lens <- Q_Lens
-  Lims <- Q_Lims
+  Lims <- S_Lims
   Domain = "admitted"
   Forces = {}
   Envs <- R_Envs
